@@ -64,7 +64,7 @@ mod verif_kani {
         type PublicKey = MKey;
         type PrivateKey = MKey;
         type EncappedKey = MKey;
-        type NSecret = generic_array::typenum::U4;
+        type NSecret = generic_array::typenum::U6;   // deliberately different from Nsk = 4
         const KEM_ID: u16 = 0x7777;
         fn sk_to_pk(sk: &MKey) -> MKey { sk.clone() }
         fn derive_keypair(ikm: &[u8]) -> (MKey, MKey) {
@@ -169,5 +169,139 @@ mod verif_kani {
         } else {
             assert!(r.is_ok());
         }
+    }
+
+    /// RFC 9180 §7.1 Table 2: KEM identifiers and Nsecret / Nenc / Npk / Nsk of the four DHKEMs
+    #[kani::proof]
+    fn kem_ids_table() {
+        use generic_array::typenum::Unsigned;
+        #[cfg(feature = "x25519")]
+        {
+            type K = crate::kem::X25519HkdfSha256;
+            assert!(<K as Kem>::KEM_ID == 0x0020 && <K as Kem>::NSecret::USIZE == 32);
+            assert!(<K as Kem>::EncappedKey::size() == 32 && <K as Kem>::PublicKey::size() == 32 && <K as Kem>::PrivateKey::size() == 32);
+        }
+        #[cfg(feature = "p256")]
+        {
+            type K = crate::kem::DhP256HkdfSha256;
+            assert!(<K as Kem>::KEM_ID == 0x0010 && <K as Kem>::NSecret::USIZE == 32);
+            assert!(<K as Kem>::EncappedKey::size() == 65 && <K as Kem>::PublicKey::size() == 65 && <K as Kem>::PrivateKey::size() == 32);
+        }
+        #[cfg(feature = "p384")]
+        {
+            type K = crate::kem::DhP384HkdfSha384;
+            assert!(<K as Kem>::KEM_ID == 0x0011 && <K as Kem>::NSecret::USIZE == 48);
+            assert!(<K as Kem>::EncappedKey::size() == 97 && <K as Kem>::PublicKey::size() == 97 && <K as Kem>::PrivateKey::size() == 48);
+        }
+        #[cfg(feature = "p521")]
+        {
+            type K = crate::kem::DhP521HkdfSha512;
+            assert!(<K as Kem>::KEM_ID == 0x0012 && <K as Kem>::NSecret::USIZE == 64);
+            assert!(<K as Kem>::EncappedKey::size() == 133 && <K as Kem>::PublicKey::size() == 133 && <K as Kem>::PrivateKey::size() == 66);
+        }
+    }
+
+    #[repr(align(8))]
+    struct Aligned80([u8; 80]);
+    fn check_ss_wiped<K: Kem>(n: usize) {
+        let mut mem = Aligned80([0u8; 80]);
+        let off: usize = kani::any();
+        kani::assume(off < 8);
+        let mut ss = <SharedSecret<K> as Default>::default();
+        assert!(ss.0.len() == n && core::mem::size_of::<SharedSecret<K>>() == n);
+        let mut i = 0;
+        while i < n { ss.0[i] = kani::any(); i += 1; }
+        unsafe {
+            let p = mem.0.as_mut_ptr().add(off) as *mut SharedSecret<K>;
+            core::ptr::write(p, ss);
+            core::ptr::drop_in_place(p);
+        }
+        let mut i = 0;
+        while i < 80 { assert!(mem.0[i] == 0); i += 1; }
+    }
+    /// C16 for the KEMs with Nsecret > 32 (48 and 64 bytes): every byte is wiped on drop
+    #[cfg(feature = "p521")]
+    #[kani::proof]
+    #[kani::unwind(82)]
+    #[kani::stub(zeroize::optimization_barrier, noop_barrier)]
+    fn drop_wipes_shared_secret_p521() { check_ss_wiped::<crate::kem::DhP521HkdfSha512>(64); }
+    #[cfg(feature = "p384")]
+    #[kani::proof]
+    #[kani::unwind(82)]
+    #[kani::stub(zeroize::optimization_barrier, noop_barrier)]
+    fn drop_wipes_shared_secret_p384() { check_ss_wiped::<crate::kem::DhP384HkdfSha384>(48); }
+
+    // ---- what the REAL X25519 DHKEM bodies hand to ExtractAndExpand (RFC 9180 §4.1), with a recording KDF ----
+    static mut REC_IKM: [u8; 80] = [0; 80];
+    static mut REC_IKM_LEN: usize = 0;
+    static mut REC_INFO: [u8; 120] = [0; 120];
+    static mut REC_INFO_LEN: usize = 0;
+    static mut REC_SUITE: [u8; 8] = [0; 8];
+    static mut REC_SUITE_LEN: usize = 0;
+    fn kdf_record<Kdf: crate::kdf::Kdf>(ikm: &[u8], suite_id: &[u8], info: &[u8], out: &mut [u8]) -> Result<(), hkdf::InvalidLength> {
+        unsafe {
+            assert!(ikm.len() <= 80 && info.len() <= 120 && suite_id.len() <= 8);
+            REC_IKM_LEN = ikm.len(); REC_INFO_LEN = info.len(); REC_SUITE_LEN = suite_id.len();
+            let mut i = 0; while i < ikm.len() { REC_IKM[i] = ikm[i]; i += 1; }
+            let mut i = 0; while i < info.len() { REC_INFO[i] = info[i]; i += 1; }
+            let mut i = 0; while i < suite_id.len() { REC_SUITE[i] = suite_id[i]; i += 1; }
+            let mut i = 0; while i < out.len() { out[i] = 0x5a; i += 1; }
+        }
+        Ok(())
+    }
+    fn dh_by_call(_sk: &x25519_dalek::StaticSecret, _pk: &x25519_dalek::PublicKey) -> x25519_dalek::SharedSecret {
+        unsafe {
+            let k = DH_CALLS;
+            DH_CALLS += 1;
+            // first DH -> 0x11.., second DH -> 0x22..
+            let out: [u8; 32] = if k == 0 { [0x11u8; 32] } else { [0x22u8; 32] };
+            core::mem::transmute::<[u8; 32], x25519_dalek::SharedSecret>(out)
+        }
+    }
+    fn rec_eq(buf: &[u8], off: usize, val: u8, n: usize) -> bool {
+        let mut i = 0;
+        while i < n { if buf[off + i] != val { return false; } i += 1; }
+        true
+    }
+    /// Encap/AuthEncap and Decap/AuthDecap pass to the KDF: suite_id = "KEM" || I2OSP(0x0020, 2),
+    /// dh = DH_1 [|| DH_2] in that order, kem_context = enc || pkRm [|| pkSm]; the result is the KDF output
+    #[kani::proof]
+    #[kani::unwind(140)]
+    #[kani::stub(x25519_dalek::StaticSecret::diffie_hellman, dh_by_call)]
+    #[kani::stub(crate::kdf::extract_and_expand, kdf_record)]
+    #[kani::stub(<crate::dhkex::x25519::X25519 as crate::dhkex::DhKeyExchange>::sk_to_pk, sk_to_pk_stub)]
+    #[kani::stub(zeroize::optimization_barrier, noop_barrier)]
+    fn x25519_dhkem_kdf_inputs() {
+        use crate::Deserializable;
+        type K = X25519HkdfSha256;
+        let auth: bool = kani::any();
+        let receiver: bool = kani::any();
+        let sk = <K as Kem>::PrivateKey::from_bytes(&[1u8; 32]).unwrap();
+        let sks = <K as Kem>::PrivateKey::from_bytes(&[4u8; 32]).unwrap();
+        let pks = <K as Kem>::PublicKey::from_bytes(&[0x33u8; 32]).unwrap();
+        let pkr = <K as Kem>::PublicKey::from_bytes(&[0x44u8; 32]).unwrap();
+        let enc = <K as Kem>::EncappedKey::from_bytes(&[0x55u8; 32]).unwrap();
+        unsafe { DH_CALLS = 0; }
+        // sk_to_pk is stubbed to the constant public key 09..09: on the sender it is enc, on the receiver pkRm
+        let secret = if receiver {
+            K::decap(&sk, if auth { Some(&pks) } else { None }, &enc).unwrap()
+        } else {
+            crate::kem::x25519_hkdfsha256::encap_with_eph(&pkr, if auth { Some((&sks, &pks)) } else { None }, sk).unwrap().0
+        };
+        kani::cover!(auth && receiver);
+        kani::cover!(!auth && !receiver);
+        unsafe {
+            assert!(REC_SUITE_LEN == 5 && REC_SUITE[0] == 0x4b && REC_SUITE[1] == 0x45 && REC_SUITE[2] == 0x4d && REC_SUITE[3] == 0x00 && REC_SUITE[4] == 0x20);
+            assert!(REC_IKM_LEN == if auth { 64 } else { 32 });
+            assert!(rec_eq(&REC_IKM, 0, 0x11, 32));
+            if auth { assert!(rec_eq(&REC_IKM, 32, 0x22, 32)); }
+            assert!(REC_INFO_LEN == if auth { 96 } else { 64 });
+            let (e, r) = if receiver { (0x55u8, 0x09u8) } else { (0x09u8, 0x44u8) };
+            assert!(rec_eq(&REC_INFO, 0, e, 32));
+            assert!(rec_eq(&REC_INFO, 32, r, 32));
+            if auth { assert!(rec_eq(&REC_INFO, 64, 0x33, 32)); }
+        }
+        let mut i = 0;
+        while i < 32 { assert!(secret.0[i] == 0x5a); i += 1; }
     }
 }
